@@ -274,12 +274,17 @@ def impl(case):
             back = JointExcessfromJDD.convert_dict_qks_to_list(qd, list(names))
             if [_dobs(a) for a in back] != [_dobs(a) for a in qs]:
                 return ["!exc", "ConversionMismatch"]
+            if (len(case["P"]) + len(names)) % 2 == 1:
+                # a dict keyed by topology name: its INSERTION ORDER is not part of the interface
+                qd = {k: qd[k] for k in reversed(list(qd))}
             return _dobs(JointDegreeFromExcess.get_joint_degree_distribution(qd, list(names)))
         return {"mean": mean, "fwd": fwd, "inv": _guard(rt), "P_after": _dobs(P)}
     if kind == "qks":
         from gcmpy.tools.joint_degree_from_excess import JointDegreeFromExcess
         names = case["names"]
         qd = {names[i]: _pdict(q) for i, q in enumerate(case["qks"])}
+        if (len(case["qks"]) + case["single"]) % 2 == 1:
+            qd = {k: qd[k] for k in reversed(list(qd))}
         order = [names[i] for i in case["order"]]
         s = case["single"]
         single = _guard(lambda: _dobs(JointDegreeFromExcess.invert_single(dict(qd[names[s]]), s)))
